@@ -97,7 +97,11 @@ def main(argv):
                     rep["parse"] = back
                     rep["signature"] = {"class": "roundtrip-value", **tags}
                     run.violation("impl", "python parse_all(serialize(v)) for %s has different field values" % T, rep)
-                elif back.get("type") != T and not has_kids and all(x.get("constraints") for x in chain[:-1]):
+                elif back.get("type") != T and not has_kids and all(x.get("constraints") for x in chain[:-1]) and not any(
+                        y.get("parent_id") == x.get("parent_id") and y is not x and not y.get("constraints")
+                        for x in chain[:-1] for y in types.decls.values()):
+                    # (a sibling without constraints matches whatever its constrained siblings match: the description
+                    #  does not determine the child, so the type returned is not compared)
                     rep["parse"] = back
                     rep["signature"] = {"class": "roundtrip-type", "got": back.get("type"), **tags}
                     run.violation("impl", "python parse_all(serialize(v)) of a %s returns a %s" % (T, back.get("type")), rep)
